@@ -92,6 +92,7 @@ type Attempt struct {
 type prepared struct {
 	Query    string
 	Keyspace string
+	uses     int
 }
 
 type Cluster struct {
@@ -99,6 +100,8 @@ type Cluster struct {
 	T          *tracer.Tracer
 	DSEVersion string
 	MaxVersion primitive.ProtocolVersion // 0 = accept everything the library knows
+	// EvictAfter > 0: a node forgets a prepared statement after this many executions (atomic).
+	EvictAfter int64
 	// PeersDelay delays every answer to a read of system.peers (set and read atomically).
 	PeersDelay time.Duration
 	// Handshake, when set, sees every decoded frame before the default handling (backend personalities during the
@@ -423,6 +426,27 @@ func (n *Node) HasPrepared(id []byte) bool {
 	return ok
 }
 
+// usePrepared is HasPrepared for an EXECUTE: with Cluster.EvictAfter = k > 0 a node forgets a statement after k
+// executions (a node with a tiny prepared-statement cache), so re-preparations are frequent and concurrent.
+func (n *Node) usePrepared(id []byte) bool {
+	n.mu.Lock()
+	defer n.mu.Unlock()
+	key := hex.EncodeToString(id)
+	p, ok := n.prepared[key]
+	if !ok {
+		return false
+	}
+	if k := int(atomic.LoadInt64(&n.C.EvictAfter)); k > 0 {
+		p.uses++
+		if p.uses > k {
+			delete(n.prepared, key)
+			return false
+		}
+		n.prepared[key] = p
+	}
+	return true
+}
+
 func (n *Node) stop(closeConns bool) {
 	n.mu.Lock()
 	ln := n.ln
@@ -614,7 +638,7 @@ func (cn *Conn) handle(a *Attempt) {
 	case *message.Prepare:
 		cn.handlePrepare(a, m)
 	case *message.Execute:
-		if !cn.N.HasPrepared(m.QueryId) {
+		if !cn.N.usePrepared(m.QueryId) {
 			if c.record(a, "EXECUTE", Unprepared) {
 				cn.sendKind(a, Outcome{Msg: &message.Unprepared{ErrorMessage: "fakecql: unprepared " + a.Token, Id: m.QueryId}, Kind: Unprepared})
 			}
